@@ -131,8 +131,10 @@ class LocMap:
             if attr is None:
                 yield None
 
-            elif isinstance(attr, np.datetime64):
-                assert labels is not None
+            elif (isinstance(attr, np.datetime64)
+                    and labels is not None
+                    and labels.dtype.kind == DTYPE_DATETIME_KIND):
+                # datetime64 labels: a key of another unit is matched by conversion; for any other label array a datetime64 is a label like any other
                 # if a datetime, we assume that the labels are ordered;
                 if attr.dtype == labels.dtype:
                     if field != SLICE_STEP_ATTR:
